@@ -449,9 +449,128 @@ void runEndian(const Plan& p)
 	}
 }
 
+// ---------------------------------------------------------------- several streams at once
+// Two or three writers, each with its own connection (or file) and its own values of the same types, run at the same time; every
+// stream must carry its own bytes. The transfers are schedule points, so a writer can be preempted between preparing a block and
+// handing it to send()/fwrite().
+void genEndianConc(Prng& r, Plan& p, int tier)
+{
+	genEndian(r, p, tier);
+	p.p["leg"] = 1 + r.below(2);
+	p.p["writers"] = 2 + r.below(2);
+}
+
+void runEndianConc(const Plan& p)
+{
+	int e0 = (int)(std::abs(p.get("endian0")) % 3);
+	int leg = (int)(std::abs(p.get("leg")) % 3);
+	int nw = (int)std::max<int64_t>(2, std::min<int64_t>(3, p.get("writers", 2)));
+	std::vector<std::vector<Item>> items((size_t)nw);
+	std::vector<std::string> refs((size_t)nw), wires((size_t)nw);
+	std::vector<Mismatch> mms((size_t)nw);
+	for (int w = 0; w < nw; w++)
+	{
+		Plan q = p;
+		for (auto& o : q.ops)
+			if (o.k == "it" && o.a.size() > 2)
+				o.a[2] = (int64_t)(mix64((uint64_t)o.a[2], (uint64_t)w + 1) >> 20);
+		items[(size_t)w] = itemsOf(q);
+		refs[(size_t)w] = reference(items[(size_t)w], e0);
+	}
+	bool arrays = false;
+	for (auto& it : items[0])
+		if (it.type >= 0 && isArray(it.type) && !it.bits.empty())
+			arrays = true;
+	if (arrays)
+		sim::setNontrivial();
+	std::vector<Task> writers((size_t)nw), readers((size_t)nw);
+	if (leg != 2)
+	{
+		sim::fs::mkdirs("/sim/bin");
+		for (int w = 0; w < nw; w++)
+			writers[(size_t)w].start([&, w]() {
+				std::string path = "/sim/bin/stream" + std::to_string(w) + ".dat";
+				asl::File f(path.c_str(), asl::File::WRITE);
+				f.setEndian(EN(e0));
+				writeAll(f, items[(size_t)w]);
+			});
+		for (auto& t : writers)
+			t.join();
+		for (int w = 0; w < nw; w++)
+		{
+			std::string path = "/sim/bin/stream" + std::to_string(w) + ".dat";
+			sim::fs::get(path.c_str(), wires[(size_t)w]);
+			if (wires[(size_t)w] == refs[(size_t)w])
+				readers[(size_t)w].start([&, w, path]() {
+					asl::File f(path.c_str(), asl::File::READ);
+					f.setEndian(EN(e0));
+					FileReader r{f};
+					readAll(r, items[(size_t)w], mms[(size_t)w]);
+				});
+		}
+		for (auto& t : readers)
+			if (t.id >= 0)
+				t.join();
+		for (int w = 0; w < nw; w++)
+			report("file;concurrent", wires[(size_t)w], refs[(size_t)w], items[(size_t)w], e0, mms[(size_t)w]);
+		return;
+	}
+	const int PORT = 18017;
+	asl::Socket lst;
+	if (!lst.bind("127.0.0.1", PORT))
+	{
+		sim::fail("harness", "bind_failed", "bind failed");
+		return;
+	}
+	lst.listen(4);
+	sim::net::enableCapture(true);
+	std::vector<asl::Socket> out((size_t)nw), in((size_t)nw);
+	std::vector<int> ord((size_t)nw, -1);
+	for (int w = 0; w < nw; w++)
+	{
+		// connections are set up one after the other so that writer w and reader w share one
+		if (!out[(size_t)w].connect("127.0.0.1", PORT))
+		{
+			sim::fail("harness", "connect_failed", "connect failed");
+			return;
+		}
+		in[(size_t)w] = lst.accept();
+		out[(size_t)w].setEndian(EN(e0));
+		in[(size_t)w].setEndian(EN(e0));
+		ord[(size_t)w] = sim::net::connOrdinalOfFd(in[(size_t)w].handle());
+	}
+	for (int w = 0; w < nw; w++)
+	{
+		writers[(size_t)w].start([&, w]() {
+			writeAll(out[(size_t)w], items[(size_t)w]);
+			out[(size_t)w].close();
+		});
+		readers[(size_t)w].start([&, w]() {
+			SockReader r{in[(size_t)w]};
+			readAll(r, items[(size_t)w], mms[(size_t)w]);
+		});
+	}
+	for (auto& t : writers)
+		t.join();
+	for (auto& t : readers)
+		t.join();
+	for (int w = 0; w < nw; w++)
+	{
+		in[(size_t)w].close();
+		wires[(size_t)w] = ord[(size_t)w] >= 0 ? sim::net::captured(ord[(size_t)w], 0) : std::string();
+	}
+	lst.close();
+	for (int w = 0; w < nw; w++)
+		report("socket;concurrent", wires[(size_t)w], refs[(size_t)w], items[(size_t)w], e0, mms[(size_t)w]);
+}
+
 } // namespace
 
 REGISTER_SCENARIO(c16_endian, "C16", "endian_streams", genEndian, runEndian, 150000, 8000000, {2, 8}, 0, 1000000, 300.0,
                   "non-trivial: an Array item with >=1 element was written, or (socket leg) a read was fragmented by the stub; distinct by plan hash x context-switch signature",
                   "include/asl/StreamBuffer.h, File.h stream operators + src/File.cpp, Socket.h stream operators + src/Socket.cpp (Socket_::read/write loops), defs.h swapBytes",
                   "disk (VFS behind fopencookie), network (TCP stub: fragmented reads, short sends, latency, small send buffers, byte capture per connection), pthread primitives", false);
+REGISTER_SCENARIO(c16_endian_conc, "C16", "endian_concurrent", genEndianConc, runEndianConc, 25000, 1500000, {1, 2, 4}, 0, 1000000, 300.0,
+                  "non-trivial: an Array item with >=1 element was written by two or three writers at once, each on its own connection or file; distinct by plan hash x context-switch signature",
+                  "include/asl/StreamBuffer.h, File.h stream operators + src/File.cpp, Socket.h stream operators + src/Socket.cpp (Socket_::read/write loops), defs.h swapBytes",
+                  "disk (VFS behind fopencookie; transfers are schedule points), network (TCP stub, byte capture per connection), pthread primitives", false);
